@@ -155,6 +155,89 @@ func textString(r *RNG) string {
 
 func textItem(r *RNG) ItemSpec { return Str(textString(r)) }
 
+// a text of exactly `cells` display cells: ASCII, or double-width characters
+// (cells rounded down to even), or a mix
+func longText(kind int, cells int) string {
+	switch kind {
+	case 1:
+		return strings.Repeat("ｂ", cells/2)
+	case 2:
+		return strings.Repeat("日a", cells/3) + strings.Repeat("x", cells%3)
+	default:
+		var sb strings.Builder
+		for i := 0; i < cells; i++ {
+			sb.WriteByte("abcdefghij"[i%10])
+		}
+		return sb.String()
+	}
+}
+
+// sizes around and beyond the block sizes a helper might work in
+var longSizes = []int{63, 64, 65, 66, 70, 100, 127, 129, 130, 200, 257, 300}
+
+// a text somewhat wider than anything the alphabet gives
+func widerText(r *RNG) ItemSpec {
+	if r.Pct(30) {
+		return Str(longText(r.Intn(3), pick(r, longSizes)))
+	}
+	return Str(textString(r) + " " + pick(r, []string{"wider than before", "日本語日本語日本語", "ＷＩＤＥＲ", "x\nlonger second line"}))
+}
+
+// lateEnrich turns a spec into a multi-step history on one reused wrapper:
+// a render after the last row, then changes that keep the table's shape
+// (cells appended to a ragged row already in the table, filling existing
+// columns; optionally a second AddHeaders of the same count), then the final
+// render.  mk makes the new, preferably wider, items.
+func lateEnrich(r *RNG, ts *TableSpec, mk func(*RNG) ItemSpec) bool {
+	nc := 0
+	if ts.Header != nil {
+		nc = len(*ts.Header)
+	}
+	for _, row := range ts.Rows {
+		if !row.Sep && len(row.Cells) > nc {
+			nc = len(row.Cells)
+		}
+	}
+	var ragged []int
+	for i, row := range ts.Rows {
+		if !row.Sep && len(row.Cells) < nc {
+			ragged = append(ragged, i)
+		}
+	}
+	if len(ts.Rows) == 0 {
+		return false
+	}
+	did := false
+	if len(ragged) > 0 {
+		i := pick(r, ragged)
+		n := 1 + r.Intn(nc-len(ts.Rows[i].Cells))
+		for k := 0; k < n; k++ {
+			ts.Rows[i].Late = append(ts.Rows[i].Late, mk(r))
+		}
+		if r.Pct(75) {
+			ts.Rows[i].LateAfter = len(ts.Rows) + 1 // only at the end of the build, after every staged render
+		} else {
+			ts.Rows[i].LateAfter = r.Intn(len(ts.Rows)) // somewhere in the middle
+		}
+		did = true
+	}
+	if ts.Header != nil && (r.Pct(40) || !did) {
+		h2 := make([]ItemSpec, len(*ts.Header))
+		for k := range h2 {
+			h2[k] = mk(r)
+		}
+		ts.Header2 = &h2
+		did = true
+	}
+	if did {
+		ts.Stages = []int{len(ts.Rows) - 1}
+		if len(ts.Rows) > 1 && r.Pct(40) {
+			ts.Stages = append([]int{r.Intn(len(ts.Rows) - 1)}, ts.Stages...)
+		}
+	}
+	return did
+}
+
 // glyphs of display width 1 for custom decorations (single runes and
 // multi-rune clusters), checked against the library's measure when used
 var glyphAtoms = []string{"-", "|", "+", "*", "#", "=", ":", ".", "o", "~", "─", "│", "┼", "═", "║", "╬", "█", "░", "•", "é", "ẍ"}
@@ -216,9 +299,10 @@ func viewAllCells(v View) []VCell {
 
 func runText(ts TextSpec) textRun {
 	var tr textRun
-	t0 := tabular.New()
-	ts.Table.Build(t0)
-	tr.view = extractView(t0)
+	// the expected table comes from the spec alone (texts, per-line measured
+	// sizes, shape, column properties as the building calls define them), never
+	// read back from the table under test
+	tr.view = ts.Table.SpecView()
 	keys := map[string]bool{}
 	for _, c := range viewAllCells(tr.view) {
 		addLineKeys(keys, c.Text)
@@ -227,14 +311,19 @@ func runText(ts TextSpec) textRun {
 	anyPanic := false
 	for _, ds := range ts.Decs {
 		t := tabular.New()
-		ts.Table.Build(t)
 		d, pre := ds.build()
 		dd := dumpDecoration(d)
 		tr.decs = append(tr.decs, dd)
 		for _, f := range dd.fields {
 			keys[f] = true
 		}
-		o := capture(func() (string, error) { return texttable.Wrap(t).SetDecoration(d).Render() })
+		// one wrapper for the whole build: it renders the partial table at
+		// every stage of the spec and the complete one at the end (the
+		// observed outcome); without stages it is made after the build
+		o := ts.Table.BuildRender(t, func(t tabular.Table) func() (string, error) {
+			w := texttable.Wrap(t).SetDecoration(d)
+			return w.Render
+		})
 		if o.Kind == "panic" {
 			anyPanic = true
 		}
@@ -485,6 +574,19 @@ func textSpecSize(ts TextSpec) int {
 	for _, d := range ts.Decs {
 		n += len(d.Fields)
 	}
+	if ts.Table.Header2 != nil {
+		for _, c := range *ts.Table.Header2 {
+			n += len(c.B) + len(c.S)
+		}
+	}
+	for _, r := range ts.Table.Rows {
+		for _, c := range r.Late {
+			n += len(c.B) + len(c.S)
+		}
+		if r.Twice {
+			n++
+		}
+	}
 	return n
 }
 
@@ -503,11 +605,75 @@ func textCaseOut(ts TextSpec, tr textRun) CaseOut {
 		os = append(os, odesc{name, o})
 		kinds += o.Kind[:1]
 	}
+	tags := tr.tags()
+	// the build history
+	if len(ts.Table.Stages) > 0 {
+		tags = append(tags, "history=staged-renders-through-one-wrapper")
+	}
+	late := false
+	for _, row := range ts.Table.Rows {
+		if len(row.Late) > 0 {
+			late = true
+			if len(ts.Table.Stages) > 0 && row.LateAfter >= len(ts.Table.Rows) {
+				tags = append(tags, "history=render-then-late-cells-then-render")
+			}
+		}
+		if row.Twice {
+			tags = append(tags, "history=row-attached-twice")
+		}
+	}
+	if late {
+		tags = append(tags, "history=cells-added-after-attach")
+	}
+	if ts.Table.Header2 != nil {
+		tags = append(tags, "history=second-AddHeaders")
+	}
+	if len(ts.Table.AlignEarly) > 0 {
+		tags = append(tags, "history=alignment-set-before-rows")
+		if a0, ok := ts.Table.Align[0]; ok {
+			if e0, ok2 := ts.Table.AlignEarly[0]; ok2 && e0 != a0 {
+				if a0 == 0 {
+					tags = append(tags, "history=early-default-alignment-later-unset")
+				} else {
+					tags = append(tags, "history=early-default-alignment-later-changed")
+				}
+			}
+		}
+	}
+	// sizes
+	maxW, maxH, maxRowLen := 0, 0, 0
+	for _, c := range viewAllCells(tr.view) {
+		if c.TW > maxW {
+			maxW = c.TW
+		}
+		if c.H > maxH {
+			maxH = c.H
+		}
+	}
+	for _, row := range tr.view.Rows {
+		if row != nil && len(*row) > maxRowLen {
+			maxRowLen = len(*row)
+		}
+	}
+	if maxW > 64 {
+		tags = append(tags, "size=cell-wider-than-64")
+	}
+	if maxH > 16 {
+		tags = append(tags, "size=cell-taller-than-16")
+	}
+	if maxRowLen > 16 {
+		tags = append(tags, "size=more-than-16-columns")
+	}
+	if len(tr.view.Rows) > 32 {
+		tags = append(tags, "size=more-than-32-rows")
+	}
+	sort.Strings(tags)
+	tags = dedup(tags)
 	return CaseOut{
 		Coq:        tr.coq,
 		Desc:       map[string]interface{}{"sig": tr.sig, "renders": os, "ncols": tr.view.NCols},
 		Size:       textSpecSize(ts),
-		Tags:       tr.tags(),
+		Tags:       tags,
 		Key:        tr.coq,
 		Nontrivial: tr.domain && len(tr.outcomes) > 0,
 	}
@@ -543,6 +709,45 @@ func shrinkTextJSON(spec json.RawMessage) []json.RawMessage {
 		c := clone()
 		c.Table = t
 		out = append(out, mustJSON(c))
+	}
+	if ts.Table.Header2 != nil {
+		c := clone()
+		c.Table.Header2 = nil
+		out = append(out, mustJSON(c))
+		for j := range *ts.Table.Header2 {
+			if b := (*ts.Table.Header2)[j].B; len(b) > 1 {
+				c := clone()
+				(*c.Table.Header2)[j] = Str(string(b[:len(b)/2]))
+				out = append(out, mustJSON(c))
+			}
+		}
+	}
+	for k := range ts.Table.AlignEarly {
+		c := clone()
+		delete(c.Table.AlignEarly, k)
+		out = append(out, mustJSON(c))
+	}
+	for i, row := range ts.Table.Rows {
+		if len(row.Late) > 0 {
+			// the late cells as ordinary ones
+			c := clone()
+			c.Table.Rows[i].Cells = append(c.Table.Rows[i].Cells, c.Table.Rows[i].Late...)
+			c.Table.Rows[i].Late = nil
+			c.Table.Rows[i].LateAfter = 0
+			out = append(out, mustJSON(c))
+			for j, it := range row.Late {
+				if len(it.B) > 1 {
+					c := clone()
+					c.Table.Rows[i].Late[j] = Str(string(it.B[:len(it.B)/2]))
+					out = append(out, mustJSON(c))
+				}
+			}
+		}
+		if row.Twice {
+			c := clone()
+			c.Table.Rows[i].Twice = false
+			out = append(out, mustJSON(c))
+		}
 	}
 	// items: drop an override, shorten the text, move declared sizes towards 0/1
 	itemVariants := func(it ItemSpec) []ItemSpec {
